@@ -33,9 +33,20 @@ type compiler struct {
 	program *ast.Program
 	curStmt ast.Statement
 	inCheck bool
-	// loopControl is a break or continue that a helper's block has run into
-	// while the current statement was evaluated
-	loopControl exitBlockStatment
+	// loopControl holds a break or continue that a helper's block has run
+	// into while the current statement was evaluated. The evaluators that
+	// run the blocks of one execution share it, so that the signal reaches
+	// the statement being evaluated whichever of them runs it.
+	loopControl *loopSignal
+}
+
+type loopSignal struct {
+	ctl exitBlockStatment
+}
+
+// signal returns the loop signal of the execution (Template.Exec makes it).
+func (c *compiler) signal() *loopSignal {
+	return c.loopControl
 }
 
 func (c *compiler) compile() (string, error) {
@@ -1286,8 +1297,8 @@ func (c *compiler) evalBlockStatement(node *ast.BlockStatement) (interface{}, er
 			return nil, err
 		}
 
-		if ctl := c.loopControl; ctl != nil {
-			c.loopControl = nil
+		if ctl := c.signal().ctl; ctl != nil {
+			c.signal().ctl = nil
 			if _, exits := i.(exitBlockStatment); !exits {
 				// the statement's own value is what the iteration keeps
 				var kept []interface{}
